@@ -481,7 +481,7 @@ def run(ctx):
     ctx.notes.append("closest / supeq full statements (ties and 'first sample not before' by index) hold for strictly increasing times "
                      "(closest_spec_strict, supeq_spec_strict); for repeated sample times only the time-wise forms are proved "
                      "(closest_spec_partial, supeq_spec_partial) and the code returns a later sample of equal time: listed known finding")
-    n = ctx.n(130, 4000)
+    n = ctx.n(300, 4000)
     cases = []
     for i in range(n):
         c = build_case(ctx, rng, i)
@@ -489,7 +489,7 @@ def run(ctx):
         ctx.count("nsamples_%d" % c["N"])
         ctx.count("times_repeated" if c["dup"] else "times_strict")
         cases.append(c)
-    sims = simulated_cases(ctx, rng, ctx.n(4, 40))
+    sims = simulated_cases(ctx, rng, ctx.n(8, 40))
     for c in sims:
         ctx.count("simulated")
     cases += sims
